@@ -67,7 +67,7 @@ class Ctx:
 
     def decide(self, rule, construct, statement, ok, node=None, reason='', **kw):
         """ok: True -> met, False -> violated, None -> undecided."""
-        v = MET if ok is True else VIOLATED if ok is False else UNDECIDED
+        v = UNDECIDED if ok is None else (MET if bool(ok) else VIOLATED)
         return self.ob(rule, construct, statement, v, node, reason, **kw)
 
     def note(self, text):
